@@ -42,18 +42,28 @@ IsFault(o) == o \in FaultOutcomes
 (* action for a fault: an event whose outcome is a fault matches nothing   *)
 (* and the run is rejected.                                                *)
 (***************************************************************************)
+\* An event is the tuple <<f, fn, arity, pos, vals, outcome>> (a JSON array: TLC's Json module reads 40 000 arrays in a
+\* second but needs half a minute for as many records).
+EvF(e)       == e[1]    \* index into the inventory
+EvFn(e)      == e[2]    \* function name (cross-checked against the inventory)
+EvArity(e)   == e[3]
+EvPos(e)     == e[4]    \* the position that was varied (0 = input), -1 for grid / pair calls
+EvVals(e)    == e[5]    \* pool ids: input, then arguments
+EvOutcome(e) == e[6]
+
 \* inv: sequence of [fn, arity, cls, internal, req, exit, pairs] records; npool: number of pool values
 C13WellFormed(e, inv, npool) ==
-    /\ e.f \in 1 .. Len(inv)
-    /\ inv[e.f].fn = e.fn
-    /\ inv[e.f].arity = e.arity
-    /\ Len(e.vals) = e.arity + 1
-    /\ \A i \in 1 .. Len(e.vals) : e.vals[i] \in 1 .. npool
-    /\ e.pos \in -1 .. e.arity
-    /\ e.outcome \in AllOutcomes
+    /\ Len(e) = 6
+    /\ EvF(e) \in 1 .. Len(inv)
+    /\ inv[EvF(e)].fn = EvFn(e)
+    /\ inv[EvF(e)].arity = EvArity(e)
+    /\ Len(EvVals(e)) = EvArity(e) + 1
+    /\ \A i \in 1 .. Len(EvVals(e)) : EvVals(e)[i] \in 1 .. npool
+    /\ EvPos(e) \in -1 .. EvArity(e)
+    /\ EvOutcome(e) \in AllOutcomes
 
-C13CallResults(e)        == e.outcome \in {OutcomeResults, OutcomeMixed}
-C13CallCatchableError(e) == e.outcome \in {OutcomeError, OutcomeMixed}
+C13CallResults(e)        == EvOutcome(e) \in {OutcomeResults, OutcomeMixed}
+C13CallCatchableError(e) == EvOutcome(e) \in {OutcomeError, OutcomeMixed}
 \* An orderly exit (the fq main loop returned a status; no Go runtime fault) is part of the protocol only for
 \*  - the documented process enders (halt, halt_error, input at end of input, repl, ...): the runner flags them,
 \*    the spec pins which names may be flagged at all (ExitNames);
@@ -62,9 +72,9 @@ C13CallCatchableError(e) == e.outcome \in {OutcomeError, OutcomeMixed}
 \*    the state or calling an error callback legitimately ends the main loop with an error status.
 \* A public function that leaves the main loop although `try` was around it is rejected ("uncaught-exit").
 C13CallExit(e, inv, ExitNames) ==
-    /\ e.outcome = OutcomeExit
-    /\ \/ inv[e.f].exit /\ e.fn \in ExitNames
-       \/ inv[e.f].internal
+    /\ EvOutcome(e) = OutcomeExit
+    /\ \/ inv[EvF(e)].exit /\ EvFn(e) \in ExitNames
+       \/ inv[EvF(e)].internal
 
 C13Accept(e, inv, ExitNames) ==
     \/ C13CallResults(e)
@@ -74,8 +84,8 @@ C13Accept(e, inv, ExitNames) ==
 \* signature of a rejected event (the runner refines it with the top fq stack frame)
 C13RejectSig(e, inv, npool) ==
     IF ~C13WellFormed(e, inv, npool) THEN "malformed"
-    ELSE IF e.outcome = OutcomeExit THEN "uncaught-exit"
-    ELSE e.outcome
+    ELSE IF EvOutcome(e) = OutcomeExit THEN "uncaught-exit"
+    ELSE EvOutcome(e)
 
 (***************************************************************************)
 (* Section 3 - C13 coverage obligation.                                    *)
@@ -94,15 +104,15 @@ C13RejectSig(e, inv, npool) ==
 (* 1 <= arity <= 2 and pairs = TRUE, positions p < q and pair-pool values  *)
 (* v, w some event has v at p, w at q and a benign default elsewhere.      *)
 (***************************************************************************)
-C13OthersBenign(e, ps, pool) == \A r \in 1 .. Len(e.vals) : r \in ps \/ pool[e.vals[r]].benign
+C13OthersBenign(e, ps, pool) == \A r \in 1 .. Len(EvVals(e)) : r \in ps \/ pool[EvVals(e)[r]].benign
 
 \* <<f, p, v>> triples (p is 1-based here: 1 = input) witnessed by event e
 C13SinglesOf(e, pool) ==
-    { <<e.f, p, e.vals[p]>> : p \in { q \in 1 .. Len(e.vals) : C13OthersBenign(e, {q}, pool) } }
+    { <<EvF(e), p, EvVals(e)[p]>> : p \in { q \in 1 .. Len(EvVals(e)) : C13OthersBenign(e, {q}, pool) } }
 
 C13PairsOf(e, pool) ==
-    { <<e.f, pq[1], pq[2], e.vals[pq[1]], e.vals[pq[2]]>> :
-        pq \in { x \in (1 .. Len(e.vals)) \X (1 .. Len(e.vals)) : x[1] < x[2] /\ C13OthersBenign(e, {x[1], x[2]}, pool) } }
+    { <<EvF(e), pq[1], pq[2], EvVals(e)[pq[1]], EvVals(e)[pq[2]]>> :
+        pq \in { x \in (1 .. Len(EvVals(e))) \X (1 .. Len(EvVals(e))) : x[1] < x[2] /\ C13OthersBenign(e, {x[1], x[2]}, pool) } }
 
 C13SingleObligations(inv, pool) ==
     UNION { { <<i, p, inv[i].req[k]>> : k \in { k \in 1 .. Len(inv[i].req) : p > 1 \/ pool[inv[i].req[k]].inp } }
